@@ -11,6 +11,7 @@ def errName : Err → String
   | .zeroDivision => "ZeroDivisionError"
   | .noneTranslation => "NoneTranslation"
   | .unmodelled => "Unmodelled"
+  | .badIndex => "BadIndex"
 
 def coefJson (c : Coef) : Json := ofInts [c.1, c.2.1, c.2.2]
 
@@ -69,6 +70,39 @@ def opOf (j : Json) : Except String Op := do
   | [a, b, c] => return ⟨a, b, c⟩
   | _ => err "op: three rows expected"
 
+def opJson (o : Op) : Json := Json.arr (o.rows.map rowJson).toArray
+
+def compOf (j : Json) : Except String Component := arr j >>= fun l => l.mapM itemOf
+
+/-- one step of a history: the call as the model sees it (texts) and as the specification sees it (grammar terms) -/
+def stepOf (j : Json) : Except String (Step × SStep × Bool) := do
+  match ← strField j "k" with
+  | "parse" =>
+    let ts ← field j "s" >>= strs
+    let cen ← boolField j "centric"
+    match ← arrField j "items" >>= fun l => l.mapM compOf with
+    | [c0, c1, c2] =>
+      let inGrammar := ts.length = 3 ∧ (ts.zip [c0, c1, c2]).all fun (t, c) => Valid c && (normalise t.toList = print c)
+      return (.parse (ts.map String.toList) cen, .parse c0 c1 c2 cen, inGrammar)
+    | _ => err "hist: three components expected"
+  | "given" =>
+    let o ← field j "rows" >>= opOf
+    return (.given o, .given o, true)
+  | "latt" =>
+    let i ← natField j "i"
+    let k ← natField j "j"
+    return (.latt i k, .latt i k, true)
+  | "reparse" =>
+    let i ← natField j "i"
+    return (.reparse i, .reparse i, true)
+  | "observe" =>
+    let i ← natField j "i"
+    return (.observe i, .observe i, true)
+  | k => err s!"hist: unknown step {k}"
+
+def eqMatrix (f : Op → Op → Bool) (pool : List Op) : Json :=
+  Json.arr (pool.map fun a => Json.arr (pool.map fun b => Json.bool (f a b)).toArray).toArray
+
 def handle (j : Json) : Except String Json := do
   let op ← strField j "op"
   match op with
@@ -101,6 +135,20 @@ def handle (j : Json) : Except String Json := do
     let a ← field j "a" >>= opOf
     let b ← field j "b" >>= opOf
     return Json.mkObj [("model", Json.bool (eqModel tolPy a b)), ("spec", Json.bool (latticeEqB a b))]
+  | "hist" =>
+    -- a history of calls on a pool of operator objects: the model's pool, the specification's pool, `==` on all pairs
+    let steps ← arrField j "steps" >>= fun l => l.mapM stepOf
+    let model := runModel fmtFrac [] (steps.map fun s => s.1)
+    let spec := specRun [] (steps.map fun s => s.2.1)
+    let modelJson := match model with
+      | .ok pool => Json.mkObj [("ok", Json.bool true), ("pool", Json.arr (pool.map opJson).toArray),
+                                ("eq", eqMatrix (eqModel tolPy) pool)]
+      | .error e => Json.mkObj [("ok", Json.bool false), ("err", Json.str (errName e))]
+    let specJson := match spec with
+      | some pool => Json.mkObj [("ok", Json.bool true), ("pool", Json.arr (pool.map opJson).toArray),
+                                 ("eq", eqMatrix latticeEqB pool)]
+      | none => Json.mkObj [("ok", Json.bool false)]
+    return Json.mkObj [("model", modelJson), ("spec", specJson), ("in_grammar", Json.bool (steps.all fun s => s.2.2))]
   | _ => err s!"C10: unknown op {op}"
 
 end Shelx.Drv.C10
